@@ -36,6 +36,11 @@ def I(n=1, signed=False, end=None, default=None):
     return {'k': 'int', 'n': n, 'signed': signed, 'end': end, 'default': default}
 
 
+def U(n=3, default=None):
+    """a user-defined field (class Hex of mk.HEADER): n bytes <-> their hexadecimal spelling (a str)"""
+    return {'k': 'user', 'n': n, 'default': default}
+
+
 def D(size, sp=None, default=None):
     if sp is None:
         sp = 'const' if size[0] == 'c' else ('field' if size[0] == 'f' else 'expr')
@@ -358,6 +363,8 @@ def node_src(node, fresh=False):
         s = '%s.when(%s)' % (node_src(node['elem']), ', '.join(args))
     elif k == 'em':
         s = 'Em()'
+    elif k == 'user':
+        s = 'Hex(%d%s)' % (node['n'], (', default=%r' % node['default']) if node.get('default') is not None else '')
     else:
         raise ValueError(k)
     dsc = node.get('desc')
